@@ -160,6 +160,7 @@ def scan_file(path, rel):
 REGIONS = [
     ("src/names.rs", "ParNameList::get", r"^#\[cfg\(feature = \"rayon\"\)\]\s*$", r"^impl ParNameList \{", r"^\}"),
     ("src/names.rs", "SeqNameList::get", r"^#\[cfg\(not\(feature = \"rayon\"\)\)\]\s*$", r"^impl SeqNameList \{", r"^\}"),
+    ("src/layer.rs", "Layer::load_impl/file name check", None, r"^\s*let mut seen_files = HashSet::new\(\);", r"^        \}\s*$"),
     ("src/layer.rs", "Layer::load_impl/parallel map", None, r"^\s*let glyphs = iter\s*$", r"\.collect::<Result<_, _>>\(\)\?;"),
     ("src/layer.rs", "Layer::save_with_options/parallel for_each", None, r"^\s*iter\.try_for_each\(", r"^    \}\s*$"),
 ]
